@@ -71,7 +71,7 @@ UNSUPPORTED = ['inst_ref<Object>', 'date']
 
 # (base, palette level, edit depth, main() up to depth, reversed file up to depth, permutations: max group in single-edit states)
 PLAN = {
-    'quick': [('pack', 'lean', 1, 1, 99, 0), ('simple2', 'quick', 1, 0, 99, None), ('simple', 'quick', 2, 1, 99, 3),
+    'quick': [('pack', 'lean', 1, 0, 99, None), ('simple2', 'quick', 1, 0, 99, None), ('simple', 'quick', 2, 1, 99, 3),
               ('rich', 'quick', 1, 0, 99, 0)],
     'thorough': [('pack', 'quick', 1, 1, 99, 4), ('simple2', 'quick', 2, 1, 99, None), ('simple', 'quick', 3, 1, 2, 6), ('simple', 'full', 2, 1, 99, None), ('rich', 'lean', 2, 1, 99, 4)],
 }
